@@ -38,7 +38,11 @@ impl<'a> Iterator for MessageReceiver<'a> {
                 RtpsSubmessageReadKind::InfoDestination(m) => {
                     self.dest_guid_prefix = m.guid_prefix();
                 }
-                RtpsSubmessageReadKind::InfoReply(_) => todo!(),
+                RtpsSubmessageReadKind::InfoReply(m) => {
+                    self._unicast_reply_locator_list = m._unicast_locator_list().value().to_vec();
+                    self._multicast_reply_locator_list =
+                        m._multicast_locator_list().value().to_vec();
+                }
                 RtpsSubmessageReadKind::InfoSource(m) => {
                     self.source_vendor_id = m.vendor_id();
                     self.source_version = m.protocol_version();
